@@ -385,6 +385,9 @@ class UCMM( device.Object ):
                                 log.warning( "Unconnected Send targeted Object other than Connection Manager: 0x%04x/%d", ids[0], ids[1] )
                         CM		= device.lookup( class_id=ids[0], instance_id=ids[1] )
                         CM.request( unc_send, addr=addr )
+                        # Whatever Object that was, it must have turned the request carried into a reply
+                        assert unc_send.get( 'request.service', 0 ) & 0x80, \
+                            "Unconnected Send to 0x%04x/%d left its request unanswered" % ( ids[0], ids[1] )
 
                     # After successful processing of the Unconnected Send on the target node, we
                     # eliminate the Unconnected Send wrapper (the unconnected_send.service = 0x52,
